@@ -8,7 +8,7 @@ import codecs
 from ..core import Ctx, RuleResult, finding, short, walk_no_nested
 from ..model import AnalysisError, norm
 from ..mutants import Mut
-from ..rules import kind, prog
+from ..rules import pairlen, kind, prog
 from ..rules.defuse import DefUse
 from ..rules.exc import ExcEngine
 from ..rules.util import callee_name, cfg_of, nodes_where
@@ -163,6 +163,8 @@ def rule_width_source(ctx: Ctx) -> RuleResult:
     for f in users:
         if f.name != "get_char_width":
             rr.inst(f"direct table user {short(f)}", True)
+            site = next(n for n in f.own_nodes() if isinstance(n, ast.Attribute) and n.attr in ("wcwidth", "wcswidth"))
+            rr.add(finding("SIB", f, site, f"{f.name}() consults the wcwidth package directly (`{norm(site, 40)}`): every other width - the offset search, is_wide_char, the bytes paths - comes from get_char_width() per code point; wcswidth() is grapheme-aware and not additive (ZWJ sequences, VS16, regional indicators), so widths no longer add up over character boundaries and str and bytes disagree", construct=f"{f.name} uses {norm(site, 40)} directly"))
     return rr
 
 
@@ -523,12 +525,15 @@ def run(ctx: Ctx):
         rule_ordinal_range(ctx),
         rule_scan_exit_twins(ctx),
         rule_utf8_scan_bound(ctx),
+        pairlen.run_pairlen(p, "C11.13", ["urwid.util.apply_target_encoding"], floor=4),
     ]
 
 
 _S = "urwid/str_util.py"
 _U = "urwid/util.py"
 MUTANTS = [
+    Mut("charset-run-of-unstripped-segment", _U, "apply_target_encoding", "cout.append((None, len(sis0)))", "cout.append((None, len(sis[0])))", "PAIRLEN|util.apply_target_encoding"),
+    Mut("calc-width-by-wcswidth", _S, "calc_width", "    if isinstance(text, str):\n        return sum(", "    if isinstance(text, str):\n        if (width := wcwidth.wcswidth(text[start_offs:end_offs])) >= 0:\n            return width\n        return sum(", "SIB|str_util.calc_width"),
     Mut("next-char-scan-three-bytes", _S, "move_next_char", "        while o < end_offs and text[o] & 0xC0 == 0x80:", "        limit = min(end_offs, start_offs + 3)\n        while o < limit and text[o] & 0xC0 == 0x80:", "TAB|str_util.move_next_char"),
     Mut("prev-char-scan-three-bytes", _S, "move_prev_char", "        while text[o] & 0xC0 == 0x80:", "        stop = max(start_offs, end_offs - 3)\n        while o > stop and text[o] & 0xC0 == 0x80:", "TAB|str_util.move_prev_char"),
     Mut("twin-next-char-scan-four-bytes", _S, "move_next_char", "        while o < end_offs and text[o] & 0xC0 == 0x80:", "        limit = min(end_offs, start_offs + 4)\n        while o < limit and text[o] & 0xC0 == 0x80:", twin=True),
